@@ -214,6 +214,7 @@ theorem run_inv (evs : List Ev) : ∀ (s s' : St), s.taken ≤ s.signalled → r
       cases e with
       | signal n => simp only [eff]; omega
       | late => exact hi
+      | remaining n => exact hi
       | got n =>
         simp only [pre] at hp
         simp only [eff]
@@ -231,7 +232,17 @@ theorem C02_mv_conservation (evs : List Ev) (s : St) (h : run {} evs = .ok s) : 
 theorem C02_mv_no_late_write (s s' : St) : step s .late ≠ .ok s' := by
   intro h; obtain ⟨hp, _⟩ := step_ok s s' _ h; simp [pre] at hp
 
+/-- **C02 (several vCPUs), exact accounting at rest.** When the harness reports the semaphore's count with nobody inside it, the
+    report is accepted only if tokens taken + tokens left = tokens signalled (a failed wait took nothing, nothing was lost). -/
+theorem C02_mv_balance (s s' : St) (n : Nat) (h : step s (.remaining n) = .ok s') : s.taken + n = s.signalled := by
+  obtain ⟨hp, _⟩ := step_ok s s' _ h
+  simp only [pre] at hp
+  by_cases c : s.taken + n = s.signalled
+  · exact c
+  · rw [if_neg c] at hp; exact absurd hp (by simp)
+
 example : (run {} [.signal 2, .got 1, .signal 1, .got 2]).isOk = true := by decide
+example : (run {} [.signal 3, .got 1, .remaining 1]).isOk = false := by decide
 example : (run {} [.signal 1, .got 2]).isOk = false := by decide
 
 end Photon.SemLog
